@@ -433,6 +433,13 @@ class BandwidthRateTracker:
             self._last_time = time_at_consumption
             self._current_rate = 0.0
             return
+        if time_at_consumption - self._last_time <= 0:
+            # This consumption happened at the same clock reading as the
+            # previous one (e.g. two scheduled consumptions released
+            # together). Its rate is infinite, and an infinite value never
+            # leaves the moving average again, which would throttle every
+            # later request for good. Keep the rate tracked so far.
+            return
         self._current_rate = self._calculate_exponential_moving_average_rate(
             amt, time_at_consumption
         )
